@@ -120,17 +120,29 @@ def r15_1(prog, rep):
                 rep.fail(rid, key, "src/scale.c", "%s: arms use tables %s with lengths %s, expected %s with %s" % (name, sorted(tabs), sorted(lens), tname, tlen))
         elif fam == "hij":
             # decoded (type, epoch) arguments are identical in all arms and match the name
-            te = {(a[1][1][0], a[1][1][1]) for a in arms}
             m = re.fullmatch(r"SCALE_HIJRI_(I|II|III|IV)(A|C)", name)
             want_t, want_e = ROMAN[m.group(1)], {"A": prog.enumerator("EPO_ASTRO"), "C": prog.enumerator("EPO_CIVIL")}[m.group(2)]
             # evaluate the decoding macros on the enumerator's value
             t_ = (val - 1) // 2
             e_ = (val - 1) % 2
-            if len(te) == 1 and (t_, e_) == (want_t, want_e):
-                rep.ok(rid, key, "src/scale.c", "all four arms decode (type %d, epoch %d) = what the name %s spells" % (t_, e_, name))
+            # per arm: the argument bound to a hij_typ_t parameter must be the type, the one bound to hij_epo_t the epoch
+            wrong = []
+            for role, (fn_, args_) in arms:
+                callee = prog.fn(fn_, "scale.c")
+                for pi_, p_ in enumerate(callee.params):
+                    if pi_ >= len(args_):
+                        continue
+                    if p_["t"] == "hij_typ_t" and args_[pi_] != want_t:
+                        wrong.append("%s passes %s as the type" % (fn_, args_[pi_]))
+                    if p_["t"] == "hij_epo_t" and args_[pi_] != want_e:
+                        wrong.append("%s passes %s as the epoch" % (fn_, args_[pi_]))
+                if not any(p_["t"] == "hij_typ_t" for p_ in callee.params):
+                    wrong.append("%s takes no calendar type" % fn_)
+            if not wrong and (t_, e_) == (want_t, want_e):
+                rep.ok(rid, key, "src/scale.c", "all four arms pass (type %d, epoch %d) = what the name %s spells" % (t_, e_, name))
             else:
-                rep.fail(rid, key, "src/scale.c", "%s: arms decode %s; SCAL2TYP/SCAL2EPO(%d) = (%d, %d), the name spells (%d, %d)" % (
-                    name, sorted(te), val, t_, e_, want_t, want_e))
+                rep.fail(rid, key, "src/scale.c", "%s (type %d, epoch %d by name; SCAL2TYP/SCAL2EPO(%d) = (%d, %d)): %s" % (
+                    name, want_t, want_e, val, t_, e_, "; ".join(sorted(set(wrong))) or "decoding macros disagree with the name"))
         else:
             rep.ok(rid, key, "src/scale.c", "all four arms use the Gregorian routines")
     # the decoding macros themselves
@@ -207,6 +219,68 @@ def r15_2(prog, rep):
         rep.broken_("rule=R15.2 expected >=4 call sites of sentinel-returning conversions, found %d" % n)
 
 
+def r15_4(prog, rep):
+    """Every index into a month-transition table is dominated by index < number-of-months (the out-of-coverage test is the
+    exact negation of what the table access needs)."""
+    rid = "R15.4"
+    n = 0
+    for name in ("ht2mjd", "mjd2ht", "__ndim_ht", "__wday_ht"):
+        if not prog.has_fn(name, "scale.c"):
+            continue
+        f = prog.fn(name, "scale.c")
+        cfg = f.cfg
+        if len(f.params) < 2:
+            continue
+        cal, nm = f.params[0]["n"], f.params[1]["n"]
+        mf = MustFacts(cfg)
+        seen = 0
+        for b, i, x, line in cfg.all_elems():
+            for nn in walk(x):
+                if nn.get("k") == "idx":
+                    base = strip_casts(nn["b"])
+                    if base.get("k") == "bin" and base["op"] == "+" and lv(base["l"]) == cal:
+                        idx = strip_casts(nn["i"])
+                        n += 1
+                        seen += 1
+                        key = "%s/MT[%s]#%d" % (name, show(idx), seen)
+                        facts = mf.at(b, i) or set()
+                        # the index itself, or (for i - 1) its base variable, must be known < nm
+                        def off(e):
+                            """(variable, constant offset) of `v`, `v + c`, `v - c`."""
+                            e = strip_casts(e)
+                            if e.get("k") == "bin" and e["op"] in "+-" and int_value(e["r"]) is not None:
+                                return lv(strip_casts(e["l"])), int_value(e["r"]) * (1 if e["op"] == "+" else -1)
+                            return lv(e), 0
+                        v_, c_ = off(idx)
+                        ok = False
+                        for fx in facts:
+                            if fx[0] != "lt" or fx[2] != nm:
+                                continue
+                            mm = re.fullmatch(r"\((\w+) ([+-]) (\d+)\)", fx[1])
+                            fv, fc = (mm.group(1), int(mm.group(3)) * (1 if mm.group(2) == "+" else -1)) if mm else (fx[1], 0)
+                            # v + fc < nm bounds v + c for every c <= fc
+                            if fv == v_ and c_ <= fc:
+                                ok = True
+                        low = True
+                        if c_ < 0:
+                            # v - c needs v >= c: for c == 1 any proof that v is non-zero
+                            low = c_ == -1 and any(
+                                fx in facts for fx in (("true", v_), ("ne", v_, "0"), ("lt", "0", v_), ("le", "1", v_)))
+                        if ok and not low:
+                            rep.fail(rid, key, f.loc(nn.get("line", line)),
+                                     "the month-transition table is read at [%s] without `%s >= %d` on every path: a day before the table's first month "
+                                     "reads the table's header word as a month start and is converted to a wrong date instead of being rejected" % (
+                                         show(idx), v_, -c_))
+                        elif ok:
+                            rep.ok(rid, key, f.loc(nn.get("line", line)), "index %s within [0, %s) on every path" % (show(idx), nm))
+                        else:
+                            rep.fail(rid, key, f.loc(nn.get("line", line)),
+                                     "the month-transition table is read at [%s] without `%s < %s` on every path: dates just outside the table's coverage are "
+                                     "converted from whatever lies behind the table instead of being rejected" % (show(idx), show(idx), nm))
+    if n < 5:
+        rep.broken_("rule=R15.4 expected >=5 table accesses, found %d" % n)
+
+
 def r15_3(prog, rep):
     rid = "R15.3"
     for tname in ("dat_ummulqura", "dat_diyanet"):
@@ -234,4 +308,6 @@ def run(prog, rep, tier, snap):
     r15_2(prog, rep)
     rep.rule("R15.3", "month-start tables strictly increasing", 2)
     r15_3(prog, rep)
+    rep.rule("R15.4", "month-transition table accesses are dominated by index < table length", 5)
+    r15_4(prog, rep)
 READY = True
